@@ -175,6 +175,8 @@ pub enum Op9 {
     SetupRead(u8),
     SetupWrite(u8),
     ExecWrite(u8),
+    /// `exec` with `(Read<T1>, Write<T2>)`, T1 != T2: each missing member gets its default, whatever else is present
+    ExecPair(u8, u8),
     SystemDataOpt(u8),
 }
 
@@ -194,6 +196,11 @@ pub fn alphabet(full: bool) -> Vec<Op9> {
         v.push(Op9::SetupRead(t));
         v.push(Op9::SetupWrite(t));
         v.push(Op9::ExecWrite(t));
+        for t2 in 0..3u8 {
+            if t2 != t {
+                v.push(Op9::ExecPair(t, t2));
+            }
+        }
         v.push(Op9::SystemDataOpt(t));
         for d in 0..nd() {
             v.push(Op9::HasValueRaw(t, d));
@@ -323,6 +330,13 @@ fn do_exec_write<T: R9>(w: &mut World) -> Result<(Out, Option<u64>), String> {
     let s = w.exec(|d: Write<T>| ser(&*d))?;
     Ok((Out::Val(Some(s)), None))
 }
+fn do_exec_pair<A: R9, B: R9>(w: &mut World) -> Result<(Out, Option<u64>), String> {
+    let s = w.exec(|(a, b): (Read<A>, Write<B>)| {
+        ser(&*a)?;
+        ser(&*b)
+    })?;
+    Ok((Out::Val(Some(s)), None))
+}
 fn do_sysdata_opt<T: R9>(w: &mut World) -> Result<(Out, Option<u64>), String> {
     let d: Option<Read<T>> = w.system_data();
     match d {
@@ -356,6 +370,14 @@ fn apply(w: &mut World, m: &mut Model, op: Op9) -> Result<(), (String, String)> 
             Op9::SetupRead(t) => by_type!(t, do_setup_read, w),
             Op9::SetupWrite(t) => by_type!(t, do_setup_write, w),
             Op9::ExecWrite(t) => by_type!(t, do_exec_write, w),
+            Op9::ExecPair(a, b) => match (a, b) {
+                (0, 1) => do_exec_pair::<Z, H>(w),
+                (0, _) => do_exec_pair::<Z, L>(w),
+                (1, 0) => do_exec_pair::<H, Z>(w),
+                (1, _) => do_exec_pair::<H, L>(w),
+                (_, 0) => do_exec_pair::<L, Z>(w),
+                _ => do_exec_pair::<L, H>(w),
+            },
             Op9::SystemDataOpt(t) => by_type!(t, do_sysdata_opt, w),
         }
     }));
@@ -415,6 +437,18 @@ fn apply(w: &mut World, m: &mut Model, op: Op9) -> Result<(), (String, String)> 
         Op9::ExecWrite(t) => {
             let s = *m.entry((t, 0)).or_insert(next_before);
             Out::Val(Some(zs(t, s)))
+        }
+        Op9::ExecPair(a, b) => {
+            // members are set up in order; only the heap-owning and the large type draw a serial number
+            let mut nx = next_before;
+            if !m.contains_key(&(a, 0)) {
+                m.insert((a, 0), nx);
+                if a != 0 {
+                    nx += 1;
+                }
+            }
+            let s = *m.entry((b, 0)).or_insert(nx);
+            Out::Val(Some(zs(b, s)))
         }
     };
     if got != expect {
